@@ -65,16 +65,17 @@ CHECKS = {
                     "recorded. 'k+1 arities for all k' as arithmetic and MATLAB isa semantics are not decided.",
             "note": TB},
     "C07": {"engine": "G+F", "design_ref": "DESIGN.md section 3 C07",
-            "technique": "static analysis: end-anchor and capture-completeness of the grammar, call-graph effect analysis (may-reject before first write on all paths), handler audit",
+            "technique": "static analysis: end-anchor and capture-completeness of the grammar, call-graph effect analysis (may-reject before first write on all paths), handler audit, validated-lookup returns, boundedness of free-text token classes",
             "text": "Decides: the parse root is end-anchored and is the only parse entry; every accepted token "
                     "reaches the tree; the parser terminates structurally (no left recursion / nullable "
                     "repetition); no handler on a path from the entry points swallows a parse/validation error; "
                     "in every entry point all rejection points precede the first write on all paths; the "
-                    "validation sites still reject. Does not decide that every corrupted input lies outside the "
+                    "validation sites still reject; the typedef lookup only returns what passed its rejections; no free-text "
+                    "token can run over following declarations. Does not decide that every corrupted input lies outside the "
                     "language.",
             "note": TB + "; rejections are ParseBaseException/ValueError/AssertionError; asserts active (no -O)"},
     "C08": {"engine": "F", "design_ref": "DESIGN.md section 3 C08",
-            "technique": "static analysis: shape of every itertools.product site, typedef-path binding, pass-through loop structure, single naming helper",
+            "technique": "static analysis: shape of every itertools.product site, typedef-path binding resolved before any content replacement, pass-through loop structure, single naming helper, no shared resolution state",
             "text": "Decides that instantiations are enumerated as the Cartesian product of the parsed lists in "
                     "declaration order at all three levels, that typedefs build exactly one instantiation with "
                     "the typedef's arguments and name, that everything else passes through once in order, and "
@@ -88,14 +89,14 @@ CHECKS = {
                     "any conforming library' needs a compiler and the library and is not decided.",
             "note": TB},
     "C10": {"engine": "E+F", "design_ref": "DESIGN.md section 3 C10",
-            "technique": "static analysis: guard pairing of preamble fragments, enumerate-from-zero shape, normal-form agreement of package paths across sibling sites, unconditional concatenation of classdef parts, single MEX-source entry",
+            "technique": "static analysis: guard pairing of preamble fragments, enumerate-from-zero shape, normal-form agreement of package paths across sibling sites, unconditional concatenation of classdef parts, single MEX-source entry, overload grouping by name, must-definition analysis of per-class scalar state",
             "text": "Decides that collector/clean-up/RTTI fragments are emitted under the right (paired) conditions for "
                     "every registered class, enumerators are numbered from 0 in declared order, all entity kinds "
                     "derive their +package path by one normal form, the classdef always contains its mandatory parts "
                     "and names its base, and exactly one MEX source entry exists. File contents are C05/C06/C11.",
             "note": TB},
     "C11": {"engine": "E+X", "design_ref": "DESIGN.md section 3 C11",
-            "technique": "static analysis: per-routine ownership obligations on constant-folded, tokenised C++ routine templates (create=>register, destroy-once, unload hook, base handle) + clang AST handle protocol of matlab.h",
+            "technique": "static analysis: per-routine ownership obligations on constant-folded, tokenised C++ routine templates (create=>register, destroy-once, unload hook, base handle, ownership form of returned handles) + memo-key completeness + clang AST handle protocol of matlab.h",
             "text": "Decides per-routine ownership obligations (each allocated handle registered and returned, destructor "
                     "erases then deletes once, unload hook before first registration, base handle handed over in the "
                     "right slot, handle protocol in matlab.h read as written). Call histories under MATLAB's lifetime "
@@ -117,7 +118,7 @@ CHECKS = {
                     "parser or instantiator. Does not re-prove output equality under alpha-renaming as a value fact.",
             "note": TB + "; deepcopy yields an independent graph; instantiate_namespace's in/out parameter exempt by name"},
     "C14": {"engine": "F", "design_ref": "DESIGN.md section 3 C14",
-            "technique": "static analysis: effect analysis over the call graph (nondeterminism sources, unordered collections, un-reset accumulators, provenance of write/read paths, whole-file writes)",
+            "technique": "static analysis: effect analysis over the call graph (nondeterminism sources, unordered collections, un-reset accumulators, provenance of write/read paths, whole-file writes, must-definition of per-item state, memo-key completeness)",
             "text": "Decides the effect discipline that makes generation a repeatable function: no "
                     "nondeterministic source or hash-ordered collection reachable, per-file state reset, every "
                     "written path derived from a caller-chosen output location (or <stem>+constant suffix), "
